@@ -108,7 +108,7 @@ def build():
         if ps0.len() >= 2 { assert(ps0.drop_first()[0] == ps0[1]); }
     }""")
     pt.method_to_shim("next", "shim_pieces_next", borrow="&mut ", arg_ok=lambda a: a == "", why="iterator over the pieces: next piece")
-    pt.method_to_shim("contains", "shim_str_contains_char", arg_ok=lambda a: a.startswith("'"), why="str::contains(char)")
+    # str::contains(char) is rewritten by str_shims (STR_SHIMS of u11) like the other str methods
     pt.contract("""    ensures
         /*@L:throwable_class_is_the_text_before_the_first_colon_space:C07,C17*/ ret is Some ==> sb(ret->0.class) == throwable_class(spec_trim(sb(line))),
         /*@L:throwable_message_is_everything_after_the_first_colon_space:C07,C17*/ ret is Some ==> match throwable_message(spec_trim(sb(line))) {
